@@ -10,7 +10,7 @@ EXPL = ("R15.1 forwarders are discovered: every impl of Entry / InflectableEntry
         "every normal path the same trait method is called on the wrapped value exactly once per inner value (Option: only when Some), "
         "every non-receiver parameter reaches the argument in the same position through identity adapters only (or wrapped in a local "
         "wrapper struct), iterator parameters pass through order-preserving adapters only, additions are chained AFTER the incoming "
-        "items, flags are merged rather than replaced, and sample_group is forwarded. R15.3 a `&mut self` wrapper method never writes or mutably lends one of "
+        "items, flags are merged rather than replaced, and sample_group is forwarded. R15.4 no wrapper method collects what it forwards into a map or set, sorts, de-duplicates or reverses it; R15.3 a `&mut self` wrapper method never writes or mutably lends one of "
         "the wrapper's own fields to anything but the forwarding call (its configuration is the same after a failed call). Not decided: what the inner value writes.")
 
 TRAITS = ("Entry", "InflectableEntry", "EntryWriter", "Value", "ValueWriter", "ValueFormatter", "EntryIoStream", "Format", "EntrySink", "AnyEntrySink")
@@ -184,6 +184,23 @@ def check_forwarder(ctx, F, imp, b, tn, m, tgt, kind, key):
         if any(x[0] == "arg" and x[1] == 1 for x in o) or tgt[0] == "ValueFormatter":
             fwd_self.append(c)
     inner_n = len(imp.get("_inner", [])) or 1
+    # R15.4 what a wrapper carries across is a sequence: never collected into a map / set, sorted, de-duplicated or reversed (a format and a
+    # sampler must see the same ordered items, repeated keys included)
+    reshaped = []
+    for c in b.calls():
+        dty = b.local_ty(c.dest["l"]) if c.dest and not c.dest.get("p") else ""
+        if c.name in ("collect", "from_iter", "into_iter", "extend") and any(k in dty for k in ("BTreeMap<", "HashMap<", "BTreeSet<", "HashSet<", "IndexMap<")):
+            reshaped.append((c.bb, "%s into %s" % (c.name, dty.split("<")[0].split("::")[-1])))
+        elif c.name in ("sort", "sort_by", "sort_by_key", "sort_unstable", "sort_unstable_by", "sort_unstable_by_key", "dedup", "dedup_by", "dedup_by_key", "reverse", "rev") and \
+                ("slice" in (c.def_ or "") or "Vec" in (c.def_ or "") or "SmallVec" in (c.def_ or "") or "Iterator" in (c.def_ or "")):
+            reshaped.append((c.bb, c.name))
+    # also the return type of the bridge method itself
+    rty = b.locals[0]["ty"] if b.locals else ""
+    if any(k in rty for k in ("BTreeMap<", "HashMap<", "BTreeSet<", "HashSet<")):
+        reshaped.append((0, "returns " + rty.split("<")[0].split("::")[-1]))
+    ctx.check(not reshaped, "R15.4", key + "#sequence-kept-as-sequence", loc(b, reshaped[0][0] if reshaped else None),
+              "the wrapper reshapes what it forwards (%s): order is lost and repeated keys collapse, so a wrapped entry no longer reports the same "
+              "ordered sequence as the plain one" % ", ".join(t for _, t in reshaped[:3]), "no map/set collection, sort, dedup or reverse")
     # R15.3 a wrapper's own configuration survives the call: with `&mut self`, nothing but the forwarding call itself may mutate a field
     # of the wrapper (a field lent out with mem::take and handed back after a fallible call is lost on the error path)
     if b.arg_count >= 1 and b.locals[1]["ty"].startswith("&mut ") and (imp.get("self_head") or {}).get("adt"):
